@@ -363,7 +363,11 @@ def selftest(seed):
     t = copy.deepcopy(pair); t['b']['pf'][0] += 4
     tests.append(('moved run: particle 4e-6 A off', t, 'position-does-not-follow-the-rigid-motion'))
     t = copy.deepcopy(pair); t['m'] = dict(t['m'], sh=[t['m']['sh'][0] + 1] + t['m']['sh'][1:])
-    tests.append(('pair judged under another motion', t, 'unjudged:constituents-are-not-the-moved-ones'))
+    tests.append(('pair judged under another motion', t, 'atoms-averaged-are-not-the-moved-input-and-the-particle-does-not-follow-the-motion'))
+    t = copy.deepcopy(pair)
+    for c in t['b']['cons']:
+        c['p'] = [c['p'][0] + 1000] + c['p'][1:]
+    tests.append(('moved run: other atoms averaged, particle in place', t, 'unjudged:constituents-are-not-the-moved-ones'))
     _d, _g, verdicts = c09_real.judge([t for _n, t, _w in tests])
     for (name, _t, want), got in zip(tests, verdicts):
         assert got == want, ('selftest C09 real', name, want, got)
